@@ -147,8 +147,8 @@ def _run_chunk(args):
     """feeds the lines to one process; a crash or a hang (no output line for `line_timeout` seconds) ends that process,
     is recorded as a CRASH line for the input line it was working on, and the rest goes to a fresh process"""
     import select
-    exe_cmd, lines, env, timeout = args
-    line_timeout = min(timeout, LINE_TIMEOUT) if timeout else LINE_TIMEOUT
+    exe_cmd, lines, env, timeout, line_timeout = args
+    line_timeout = line_timeout or (min(timeout, LINE_TIMEOUT) if timeout else LINE_TIMEOUT)
     outs = []
     i = 0
     crashes = 0
@@ -204,7 +204,7 @@ def _run_chunk(args):
     return outs
 
 
-def run_lines(exe_cmd, lines, env=None, jobs=None, timeout=600, per_chunk=200):
+def run_lines(exe_cmd, lines, env=None, jobs=None, timeout=600, per_chunk=200, line_timeout=None):
     """One self-contained input line -> one output line; crash-resilient; parallel over chunks."""
     if not lines:
         return []
@@ -218,7 +218,7 @@ def run_lines(exe_cmd, lines, env=None, jobs=None, timeout=600, per_chunk=200):
     size = (len(lines) + n - 1) // n
     chunks = [lines[k:k + size] for k in range(0, len(lines), size)]
     with cf.ThreadPoolExecutor(n) as ex:
-        res = list(ex.map(_run_chunk, [(exe_cmd, c, e, timeout) for c in chunks]))
+        res = list(ex.map(_run_chunk, [(exe_cmd, c, e, timeout, line_timeout) for c in chunks]))
     return [o for r in res for o in r]
 
 
@@ -379,12 +379,12 @@ class Result:
 HARNESS_LIBS = {"h_lz4": ["-llz4"]}
 
 
-def correspond(ctx, res, harness, mode, lines, holds, classify=None, trivial=None, vm="direct", exe_args=(), env=None, sample=3, rule="", per_chunk=200, libs=()):
+def correspond(ctx, res, harness, mode, lines, holds, classify=None, trivial=None, vm="direct", exe_args=(), env=None, sample=3, rule="", per_chunk=200, libs=(), line_timeout=None):
     """Run `lines` through the real code (harness) and the Lean model (grdriver <mode>), diff, and evaluate the
     property predicate `holds(line, impl_out) -> (True|False|None, why)` on the implementation's own output."""
     exe = build_harness(harness, vm=vm, libs=HARNESS_LIBS.get(harness, ()))
-    impl = run_lines([exe] + list(exe_args), lines, env=env, per_chunk=per_chunk)
-    model = run_lines([driver_path(), mode], lines, per_chunk=per_chunk) if ctx.model_ok else [None] * len(lines)
+    impl = run_lines([exe] + list(exe_args), lines, env=env, per_chunk=per_chunk, line_timeout=line_timeout)
+    model = run_lines([driver_path(), mode], lines, per_chunk=per_chunk, line_timeout=line_timeout) if ctx.model_ok else [None] * len(lines)
     tag = "%s/%s" % (harness, mode)
     if tag not in res.harness:
         res.harness.append(tag)
